@@ -314,6 +314,14 @@ impl<'a> Socket<'a> {
         // This is enforced in interface.rs.
         assert!(repr.src_port == self.server_port && repr.dst_port == self.client_port);
 
+        // The source address is remembered as the server's address and renewals are
+        // unicast to it. The interface lets 0.0.0.0 through as a source (DHCP clients
+        // use it), but a server never does: ignore such messages.
+        if src_ip.is_unspecified() {
+            net_debug!("DHCP ignoring packet from the unspecified address");
+            return;
+        }
+
         let dhcp_packet = match DhcpPacket::new_checked(payload) {
             Ok(dhcp_packet) => dhcp_packet,
             Err(e) => {
